@@ -36,7 +36,7 @@ Ops == [op : {"append", "assign", "assignPtr", "swap", "compare", "equals"}, src
        \cup [op : {"insert"}, pos : Pos, src : Srcs]
        \cup [op : {"insertSelf"}, pos : Pos]
        \cup [op : {"insertSub"}, pos : Pos, src : Srcs1, pos2 : 0..(MaxSrc - 1), n : 1..MaxSrc]
-       \cup [op : {"insertSubSelf"}, pos : Pos, pos2 : Pos, n : 1..MaxSrc]
+       \cup [op : {"insertSubSelf", "insertRangeSelf"}, pos : Pos, pos2 : Pos, n : 1..MaxSrc]
        \cup [op : {"insertN"}, pos : Pos, n : Cnt, ch : Chars]
        \cup [op : {"insertIt"}, pos : Pos, ch : Chars]
        \cup [op : {"erase"}, pos : Pos, n : CntN]
@@ -55,7 +55,7 @@ Init == s = NewStr /\ prev = NewStr /\ res = 0 /\ other = <<>> /\ tags = {} /\ h
 
 TagsOf(S, op, S2) ==
   (IF S2.d.alloc # S.d.alloc /\ S.d.alloc > 0 THEN {"realloc"} ELSE {})
-  \cup (IF op.op \in {"appendSelf", "appendSubSelf", "insertSelf", "insertSubSelf"} /\ S2.d.alloc = S.d.alloc /\ S2.n > S.n
+  \cup (IF op.op \in {"appendSelf", "appendSubSelf", "insertSelf", "insertSubSelf", "insertRangeSelf"} /\ S2.d.alloc = S.d.alloc /\ S2.n > S.n
         THEN {"selfInPlace"} ELSE {})
   \cup (IF op.op \in {"assignSubSelf", "substrSelf"} /\ op.pos > 0 THEN {"selfMove"} ELSE {})
   \cup (IF ~DEmpty(S) /\ S.n = 0 THEN {"emptyWithBuffer"} ELSE {})
